@@ -135,6 +135,9 @@ type Machine struct {
 	syncMaps  map[*value]*mapV
 	pools     map[*value][]value
 	files     map[*value]*fileState
+	syncVC    map[hbKey]vclock
+	mapRaces  map[*mapV]*mapRaceState
+	raceSeen  map[string]bool
 	overrides map[string]value
 	racyScope string
 	randInts  []*Term
@@ -155,6 +158,7 @@ type G struct {
 	name    string
 	started bool
 	stack   []*frame
+	vc      vclock // happens-before vector clock (race.go)
 }
 
 func (m *Machine) abort(format string, args ...interface{}) {
@@ -699,6 +703,9 @@ func (m *Machine) resetPath() {
 	m.syncMaps = map[*value]*mapV{}
 	m.pools = map[*value][]value{}
 	m.files = map[*value]*fileState{}
+	m.syncVC = map[hbKey]vclock{}
+	m.mapRaces = map[*mapV]*mapRaceState{}
+	m.raceSeen = map[string]bool{}
 	m.overrides = map[string]value{}
 	m.racyScope = ""
 	m.randInts = nil
@@ -758,6 +765,14 @@ func compactInputs(ins []InputVal) string {
 
 func (m *Machine) newG(name string) *G {
 	g := &G{id: len(m.gs), resume: make(chan bool), name: name}
+	// go statement: everything the parent did so far happens before the child starts
+	if p := m.cur; p != nil && p.vc != nil {
+		g.vc = p.vc.clone()
+		p.vc[p.id]++
+	} else {
+		g.vc = vclock{}
+	}
+	g.vc[g.id] = 1
 	m.gs = append(m.gs, g)
 	return g
 }
